@@ -1,12 +1,14 @@
 SPECIFICATION Spec
 CONSTANTS
-  ClassLevelPropagate = TRUE
+  ClassLevelPropagate = FALSE
   ParamResolve = FALSE
+  InitRestated = FALSE
   OriginFromSuper = FALSE
   AllowModifyBusy = TRUE
   Parent <- Chain3
   Mode = "dyn"
   QSels = {{}}
+  Vias = {"api"}
   InstKeys = {}
   WithModify = TRUE
   AllFlags = FALSE
